@@ -349,6 +349,11 @@ func makeSliceS(fr *frame, instr *ssa.MakeSlice) value {
 				pc.tryViolation("monitor", "alloc-limit", fmt.Sprintf("make([]%s) with symbolic %s can exceed the allocation limit of %d bytes", tElt, what, pc.allocLimit), fr.i.prog.Fset.Position(instr.Pos()).String(), "")
 				panic(pathEnd{"alloc-limit"})
 			}
+			if what == "cap" {
+				// the capacity is only an allocation hint: within the limit its value is not observable
+				pc.stats.Assumptions["make() with a symbolic capacity: the capacity value (within the allocation limit) is not observed by the program"] = true
+				return -1
+			}
 			return concretizeInt(pc, s, 0, limit-1)
 		}
 		n := asInt64(v)
@@ -366,6 +371,9 @@ func makeSliceS(fr *frame, instr *ssa.MakeSlice) value {
 	}
 	l := resolve(ln, "len")
 	c := resolve(cp, "cap")
+	if c == -1 {
+		c = l
+	}
 	if c < l {
 		panic(goPanic{"makeslice: cap out of range"})
 	}
